@@ -171,6 +171,9 @@ func (c *ScriptConn) PrependInputLocked(b []byte) {
 	c.in, c.pos = n, 0
 }
 
+// RemainingLocked is Remaining for use inside an OnWrite callback.
+func (c *ScriptConn) RemainingLocked() int { return len(c.in) - c.pos }
+
 // Remaining returns the number of undelivered input bytes.
 func (c *ScriptConn) Remaining() int {
 	c.mu.Lock()
